@@ -2,10 +2,8 @@ package lakesim
 
 import (
 	"fmt"
-	"sort"
 
 	"github.com/brimdata/super/compiler"
-	"github.com/brimdata/super/lake/data"
 	"github.com/segmentio/ksuid"
 	"verifsim/kernel"
 	"verifsim/simdisk"
@@ -15,6 +13,7 @@ type seqCfg struct {
 	Prop       string
 	MaxOps     int
 	RecheckOld bool // C13(a): re-query every earlier commit after every operation
+	BranchOps  bool // C15: branch create/drop, merge, revert
 }
 
 type seqDesc struct {
@@ -23,17 +22,17 @@ type seqDesc struct {
 	Par     int      `json:"parallelism"`
 	Ops     []Op     `json:"ops"`
 	Policy  string   `json:"sched_policy"`
+	Crash   string   `json:"crash,omitempty"`
 }
 
-// runSeq runs one sequential history inside a bubble and checks the model
-// after every operation.
-func runSeq(tape *kernel.Tape, cfg seqCfg) *kernel.Outcome {
+// runInWorld runs body as the single task of a fresh bubble.
+func runInWorld(tape *kernel.Tape, prop string, body func(w *World) *kernel.Violation) *kernel.Outcome {
 	out := &kernel.Outcome{}
 	var viol *kernel.Violation
 	p, leaked := InBubble(func() {
 		mode := simdisk.Mode(tape.Stream("knobs").Intn(2))
 		w := NewWorld(tape, mode, out)
-		w.Sched.Go(func() { viol = seqBody(w, cfg) })
+		w.Sched.Go(func() { viol = body(w) })
 		w.Sched.Run()
 		w.Finish()
 	})
@@ -49,294 +48,67 @@ func runSeq(tape *kernel.Tape, cfg seqCfg) *kernel.Outcome {
 	return out
 }
 
-func seqBody(w *World, cfg seqCfg) *kernel.Violation {
-	sig := cfg.Prop
+// setup creates the lake and one pool and returns the sequential runner.
+func seqSetup(w *World, sig string, desc *seqDesc) (*SeqRun, *kernel.Violation) {
 	e := NewEnv(w)
-	kn, wl := w.Kn, w.Wl
+	kn := w.Kn
 	par := []int{1, 2, 3, 8}[kn.Intn(4)]
 	compiler.Parallelism = par
 	spec := GenPoolSpec(kn, "p1")
 	keyRange := []int{20, 5, 200}[kn.Intn(3)]
-	nops := kn.Range(1, cfg.MaxOps)
-	desc := &seqDesc{Pool: spec, Storage: w.Disk.Mode.String(), Par: par, Policy: w.Sched.PolicyName()}
+	desc.Pool, desc.Storage, desc.Par, desc.Policy = spec, w.Disk.Mode.String(), par, w.Sched.PolicyName()
 	w.Out.Desc = desc
 	w.Out.Bucket = w.Disk.Mode.String()
-
 	c, err := w.Create(e.Ctx, w.Disk.NewHandle("c0", true))
 	if err != nil {
-		return kernel.Violatef(sig+":unexpected-error:init", "lake init failed: %v", err)
+		return nil, kernel.Violatef(sig+":unexpected-error:init", "lake init failed: %v", err)
 	}
 	id, err := c.CreatePool(e.Ctx, &spec)
 	if err != nil {
-		return kernel.Violatef(sig+":unexpected-error:create-pool", "create pool %+v failed: %v", spec, err)
+		return nil, kernel.Violatef(sig+":unexpected-error:create-pool", "create pool %+v failed: %v", spec, err)
 	}
-	pm := &PoolM{Spec: spec, ID: id, Branches: map[string]*BranchM{}, Commits: map[ksuid.KSUID][]int{}}
+	pm := &PoolM{Spec: spec, ID: id}
 	e.Pools[spec.Name] = pm
-	br := &BranchM{Name: "main", Content: map[int]bool{}}
-	pm.Branches["main"] = br
-	r := &SeqRun{E: e, C: c, PM: pm, Branch: br, Vecs: map[ksuid.KSUID]bool{}, Added: map[ksuid.KSUID]bool{}, Vacuumed: map[ksuid.KSUID]bool{}, KeyRange: keyRange}
+	r := NewSeqRun(e, c, pm, keyRange, sig)
 	if v := e.CheckCommit(pm, ksuid.Nil, nil, sig, "after pool creation"); v != nil {
+		return nil, v
+	}
+	return r, nil
+}
+
+func seqBody(w *World, cfg seqCfg) *kernel.Violation {
+	desc := &seqDesc{}
+	r, v := seqSetup(w, cfg.Prop, desc)
+	if v != nil {
 		return v
 	}
+	r.BranchOps = cfg.BranchOps
+	nops := w.Kn.Range(1, cfg.MaxOps)
 	for i := 0; i < nops; i++ {
-		op := r.GenOp(wl)
-		when := fmt.Sprintf("op %d (%s)", i+1, op.Kind)
-		ex, err := r.Expectation(wl, &op)
-		if err != nil {
-			// The reference evaluator rejects the predicate: skip it.
-			op.Result = "skipped: " + err.Error()
-			desc.Ops = append(desc.Ops, op)
-			continue
-		}
-		prevObjs := append([]ksuid.KSUID(nil), r.Objs...)
-		prevVecs := r.Vecs
-		commit, vacuumed, err := r.Issue(c, &op, ex)
-		w.Out.Probe("op:" + op.Kind)
-		if err != nil {
-			op.Result = "error: " + err.Error()
-			desc.Ops = append(desc.Ops, op)
-			w.Out.Probe("op-error:" + op.Kind)
-			if !ex.MayFail && !ex.MustFail {
-				return kernel.Violatef(sig+":unexpected-error:"+op.Kind, "%s %+v on a fault-free, uncontended lake failed: %v", when, op, err)
-			}
-			// A failed operation leaves no trace.
-			tip, terr := e.TipOf(pm, br.Name)
-			if terr != nil || tip != br.Tip {
-				return kernel.Violatef(sig+":failed-op-moved-tip", "%s failed (%v) but the branch tip is now %s (was %s) %v", when, err, tip, br.Tip, terr)
-			}
-			if v := e.CheckCommit(pm, br.Tip, br.Us(), sig, when+" (failed)"); v != nil {
-				return v
-			}
-			continue
-		}
-		if ex.MustFail {
-			return kernel.Violatef(sig+":unexpected-success:"+op.Kind, "%s %+v succeeded although the model says it cannot (vector state %v)", when, op, prevVecs)
-		}
-		if ex.NoCommit {
-			op.Result = fmt.Sprintf("vacuumed %d", len(vacuumed))
-			desc.Ops = append(desc.Ops, op)
-			if v := r.checkVacuum(vacuumed, sig, when); v != nil {
-				return v
-			}
-			if v := e.CheckCommit(pm, br.Tip, br.Us(), sig, when); v != nil {
-				return v
-			}
-			continue
-		}
-		op.Result = commit.String()
+		op, v := r.Step(w.Wl, i, cfg.RecheckOld)
 		desc.Ops = append(desc.Ops, op)
-		tip, terr := e.TipOf(pm, br.Name)
-		if terr != nil || tip != commit {
-			return kernel.Violatef(sig+":ack-not-tip", "%s acknowledged commit %s but the branch tip read cold is %s %v", when, commit, tip, terr)
-		}
-		br.Tip = commit
-		br.Content = ex.Content
-		pm.Commits[commit] = br.Us()
-		pm.Order = append(pm.Order, commit)
-		if v := r.Refresh(sig, when); v != nil {
+		if v != nil {
 			return v
-		}
-		if v := e.CheckCommit(pm, commit, br.Us(), sig, when); v != nil {
-			return v
-		}
-		// Operation-specific object-level expectations.
-		if v := r.checkObjects(&op, prevObjs, prevVecs, sig, when); v != nil {
-			return v
-		}
-		// The issuing (warm) client sees the same thing by branch name.
-		if v := e.CheckScan(c, pm, br.Name, br.Us(), sig, when+" (warm handle, by branch name)"); v != nil {
-			return v
-		}
-		if cfg.RecheckOld {
-			if v := r.recheckOld(sig, when); v != nil {
-				return v
-			}
 		}
 	}
-	w.Out.Nontrivial = len(desc.Ops) > 0 && (spec.Thresh != 0 || spec.Stride != 0 || par > 1 || len(desc.Ops) > 2)
+	w.Out.Nontrivial = len(desc.Ops) > 0 && (desc.Pool.Thresh != 0 || desc.Pool.Stride != 0 || desc.Par > 1 || len(desc.Ops) > 2)
 	return nil
-}
-
-func idSet(ids []ksuid.KSUID) map[ksuid.KSUID]bool {
-	m := map[ksuid.KSUID]bool{}
-	for _, id := range ids {
-		m[id] = true
-	}
-	return m
-}
-
-// checkObjects verifies what an operation may do to the object set.
-func (r *SeqRun) checkObjects(op *Op, prevObjs []ksuid.KSUID, prevVecs map[ksuid.KSUID]bool, sig, when string) *kernel.Violation {
-	prev, cur := idSet(prevObjs), idSet(r.Objs)
-	var removed, added []ksuid.KSUID
-	for id := range prev {
-		if !cur[id] {
-			removed = append(removed, id)
-		}
-	}
-	for id := range cur {
-		if !prev[id] {
-			added = append(added, id)
-		}
-	}
-	chosen := map[ksuid.KSUID]bool{}
-	for _, i := range op.Objs {
-		chosen[prevObjs[i]] = true
-	}
-	switch op.Kind {
-	case "load":
-		if len(removed) != 0 {
-			return kernel.Violatef(sig+":load-removed-objects", "%s removed objects %v", when, removed)
-		}
-		if ok, diff := sameMultiset(r.objUs(added), op.Us); !ok {
-			return kernel.Violatef(sig+":load-objects", "%s: new objects do not hold exactly the loaded batch: %s", when, diff)
-		}
-		if len(added) > 1 {
-			r.E.W.Out.Probe("multi-object-load")
-		}
-	case "delete":
-		if len(added) != 0 || len(removed) != len(chosen) {
-			return kernel.Violatef(sig+":delete-objects", "%s: asked to delete %d objects; %d removed, %d added", when, len(chosen), len(removed), len(added))
-		}
-		for _, id := range removed {
-			if !chosen[id] {
-				return kernel.Violatef(sig+":delete-objects", "%s removed object %s which was not named", when, id)
-			}
-		}
-	case "compact":
-		for _, id := range removed {
-			if !chosen[id] {
-				return kernel.Violatef(sig+":compact-objects", "%s removed object %s which was not named", when, id)
-			}
-		}
-		if len(removed) != len(chosen) {
-			return kernel.Violatef(sig+":compact-objects", "%s: named %d objects, %d removed", when, len(chosen), len(removed))
-		}
-		if ok, diff := sameMultiset(r.objUs(added), r.objUs(removed)); !ok {
-			return kernel.Violatef(sig+":compact-content", "%s: compacted objects hold different values than their sources: %s", when, diff)
-		}
-		if op.Vectors {
-			for _, id := range added {
-				if !r.Vecs[id] {
-					return kernel.Violatef(sig+":compact-vectors", "%s with vectors: new object %s has no vector copy", when, id)
-				}
-			}
-		}
-	case "vector-add", "vector-del":
-		if len(added) != 0 || len(removed) != 0 {
-			return kernel.Violatef(sig+":vector-op-changed-objects", "%s changed the object set (+%d -%d)", when, len(added), len(removed))
-		}
-		for id := range cur {
-			want := prevVecs[id]
-			if chosen[id] {
-				want = op.Kind == "vector-add"
-			}
-			if r.Vecs[id] != want {
-				return kernel.Violatef(sig+":vector-state", "%s: object %s has-vector=%v, expected %v", when, id, r.Vecs[id], want)
-			}
-		}
-	}
-	if op.Kind != "vector-add" && op.Kind != "vector-del" && op.Kind != "compact" {
-		for id := range cur {
-			if prev[id] && r.Vecs[id] != prevVecs[id] {
-				return kernel.Violatef(sig+":vector-state", "%s changed the vector state of untouched object %s", when, id)
-			}
-		}
-	}
-	return nil
-}
-
-// checkVacuum: vacuum at the branch tip removes exactly the objects that were
-// once part of the branch and are not in the tip's snapshot (and were not
-// vacuumed before); everything in the snapshot stays on disk.
-func (r *SeqRun) checkVacuum(vacuumed []ksuid.KSUID, sig, when string) *kernel.Violation {
-	cur := idSet(r.Objs)
-	want := map[ksuid.KSUID]bool{}
-	for id := range r.Added {
-		if !cur[id] && !r.Vacuumed[id] {
-			want[id] = true
-		}
-	}
-	got := idSet(vacuumed)
-	for id := range got {
-		if cur[id] {
-			return kernel.Violatef(sig+":vacuum-live-object", "%s reported vacuuming object %s which is part of the tip snapshot", when, id)
-		}
-		if !want[id] {
-			return kernel.Violatef(sig+":vacuum-unexpected", "%s reported vacuuming object %s which the model does not consider vacuumable", when, id)
-		}
-	}
-	for id := range want {
-		if !got[id] {
-			return kernel.Violatef(sig+":vacuum-missed", "%s did not vacuum object %s (once in the branch, absent from the tip snapshot)", when, id)
-		}
-		r.Vacuumed[id] = true
-	}
-	if len(want) > 0 {
-		r.E.W.Out.Probe("vacuum-removed-objects")
-	}
-	// Disk state.
-	obs, err := r.E.W.Open(r.E.Ctx, "observer", false)
-	if err != nil {
-		return kernel.Violatef(sig+":unreadable", "%s: %v", when, err)
-	}
-	pool, err := obs.Root.OpenPool(r.E.Ctx, r.PM.ID)
-	if err != nil {
-		return kernel.Violatef(sig+":unreadable", "%s: %v", when, err)
-	}
-	for id := range cur {
-		if ok, _ := obs.H.Exists(r.E.Ctx, data.SequenceURI(pool.DataPath, id)); !ok {
-			return kernel.Violatef(sig+":vacuum-live-object", "%s: object %s of the tip snapshot is gone from storage", when, id)
-		}
-	}
-	for id := range r.Vacuumed {
-		if ok, _ := obs.H.Exists(r.E.Ctx, data.SequenceURI(pool.DataPath, id)); ok {
-			return kernel.Violatef(sig+":vacuum-missed", "%s: object %s reported vacuumed is still on storage", when, id)
-		}
-	}
-	return nil
-}
-
-// recheckOld (C13 a): every acknowledged commit whose objects have not been
-// vacuumed must still yield exactly the content first recorded for it.
-func (r *SeqRun) recheckOld(sig, when string) *kernel.Violation {
-	for _, c := range r.PM.Order {
-		if c == r.Branch.Tip {
-			continue
-		}
-		if r.commitTouchedByVacuum(c) {
-			continue
-		}
-		if v := r.E.CheckCommit(r.PM, c, r.PM.Commits[c], sig+":old-commit", fmt.Sprintf("%s, re-reading earlier commit %s", when, c)); v != nil {
-			return v
-		}
-		r.E.W.Out.Probe("old-commit-requeried")
-	}
-	return nil
-}
-
-func (r *SeqRun) commitTouchedByVacuum(c ksuid.KSUID) bool {
-	if len(r.Vacuumed) == 0 {
-		return false
-	}
-	want := map[int]bool{}
-	for _, u := range r.PM.Commits[c] {
-		want[u] = true
-	}
-	// A commit's obligations end when any object that holds one of its
-	// values has been vacuumed.
-	for id := range r.Vacuumed {
-		for _, u := range r.E.Objs[id].Us {
-			if want[u] {
-				return true
-			}
-		}
-	}
-	return false
 }
 
 func runC14(tape *kernel.Tape) *kernel.Outcome {
-	return runSeq(tape, seqCfg{Prop: "C14", MaxOps: 14})
+	cfg := seqCfg{Prop: "C14", MaxOps: 14}
+	return runInWorld(tape, cfg.Prop, func(w *World) *kernel.Violation { return seqBody(w, cfg) })
 }
 
-var _ = sort.Ints
+// C13 (a): time travel - every acknowledged commit keeps its content.
+func runC13a(tape *kernel.Tape) *kernel.Outcome {
+	cfg := seqCfg{Prop: "C13", MaxOps: 10, RecheckOld: true, BranchOps: tape.Stream("knobs").Chance(1, 2)}
+	return runInWorld(tape, cfg.Prop, func(w *World) *kernel.Violation { return seqBody(w, cfg) })
+}
+
+// C15 sequential part: branch topologies, merge and revert against the
+// object-level model.
+func runC15seq(tape *kernel.Tape) *kernel.Outcome {
+	cfg := seqCfg{Prop: "C15", MaxOps: 16, BranchOps: true}
+	return runInWorld(tape, cfg.Prop, func(w *World) *kernel.Violation { return seqBody(w, cfg) })
+}
